@@ -28,9 +28,12 @@ def splits(k):
             yield [a, b - a, k - b]
 
 
-@core.guarded(lambda pairs, rev, split, interleave, acc=None, empties=0: dict(pairs=[list(p) for p in pairs], reverse=rev, split=split, interleave=interleave, empties=empties))
-def check_case(pairs, rev, split, interleave, acc, empties=0):
-    pos = [ScoredAlignedPair(AlignedPair(P(r, r * 100), P(q, q * 100)), 1.) for r, q in pairs]
+@core.guarded(lambda pairs, rev, split, interleave, acc=None, empties=0, coincide=0: dict(pairs=[list(p) for p in pairs], reverse=rev, split=split, interleave=interleave, empties=empties, coincide=coincide))
+def check_case(pairs, rev, split, interleave, acc, empties=0, coincide=0):
+    # coincide: 1 = query labels 2k-1 and 2k share a coordinate, 2 = reference labels do (distinct labels at one position)
+    qc = (lambda q: ((q + 1) // 2) * 100) if coincide == 1 else (lambda q: q * 100)
+    rc = (lambda r: ((r + 1) // 2) * 100) if coincide == 2 else (lambda r: r * 100)
+    pos = [ScoredAlignedPair(AlignedPair(P(r, rc(r)), P(q, qc(q))), 1.) for r, q in pairs]
     segs = []
     i = 0
     for n in split:
@@ -58,7 +61,7 @@ def check_case(pairs, rev, split, interleave, acc, empties=0):
         acc.classes['pairs=%s' % ('1' if len(pairs) == 1 else '2+')] += 1
         if gaps:
             acc.classes['with-skipped-labels'] += 1
-        case = dict(pairs=[list(p) for p in pairs], reverse=rev, split=split, interleave=interleave, empties=empties)
+        case = dict(pairs=[list(p) for p in pairs], reverse=rev, split=split, interleave=interleave, empties=empties, coincide=coincide)
         for f in found:
             acc.viol(f[0], case, f[1], f[2], f[3])
         acc.sample(case)
@@ -90,9 +93,13 @@ class Grid(core.Layer):
                             for em in (1, 2, 3):
                                 acc.seq += 1
                                 check_case(pairs, rev, sp, False, acc, em)
+                        if len(sp) == 1:
+                            for co in (1, 2):
+                                acc.seq += 1
+                                check_case(pairs, rev, sp, False, acc, 0, co)
 
     def replay(self, case):
-        return check_case([tuple(p) for p in case['pairs']], case['reverse'], case['split'], case['interleave'], None, case.get('empties', 0))
+        return check_case([tuple(p) for p in case['pairs']], case['reverse'], case['split'], case['interleave'], None, case.get('empties', 0), case.get('coincide', 0))
 
 
 @core.guarded(lambda ref, q, peaks, rev, *a: dict(reference=ref, query=q, peaks=peaks, reverse=rev))
